@@ -368,9 +368,55 @@ func ruleTablePerDocument(w *World, r *Report) {
 		return
 	}
 	nParse := 0
-	for _, pf := range w.Entries().Parse {
+	for _, entry := range w.Entries().Parse {
 		nParse++
-		key := w.FnKey(pf) + ": default context"
+		// the function that supplies the context: Parse itself, or a helper of the same package it calls (the option
+		// handling extracted into a function) — the first one that contains a Context-returning constructor call
+		pf := entry
+		{
+			hasCtor := func(fn *ssa.Function) bool {
+				for _, b := range fn.Blocks {
+					for _, ins := range b.Instrs {
+						if c, ok := ins.(*ssa.Call); ok {
+							if cal := c.Common().StaticCallee(); cal != nil && w.InModule(cal) && types.Identical(c.Type(), ctxT) {
+								for _, cf := range dominatingConds(b) {
+									for _, a := range condAtoms(cf.If.Cond, cf.Truth) {
+										if x, isNil, ok := nilTest(a.V); ok && isNil == a.Truth && types.Identical(x.Type(), ctxT) {
+											return true
+										}
+									}
+								}
+							}
+						}
+					}
+				}
+				return false
+			}
+			if !hasCtor(entry) {
+				seenH := map[*ssa.Function]bool{entry: true}
+				work := []*ssa.Function{entry}
+				for depth := 0; depth < 2 && pf == entry; depth++ {
+					var next []*ssa.Function
+					for _, f := range work {
+						for _, b := range f.Blocks {
+							for _, ins := range b.Instrs {
+								if c, ok := ins.(ssa.CallInstruction); ok {
+									if cal := c.Common().StaticCallee(); cal != nil && w.InModule(cal) && cal.Pkg == entry.Pkg && !seenH[cal] && cal.Blocks != nil {
+										seenH[cal] = true
+										next = append(next, cal)
+										if pf == entry && hasCtor(cal) && cal.Signature.Results().Len() >= 1 && types.Identical(cal.Signature.Results().At(0).Type(), ctxT) {
+											pf = cal
+										}
+									}
+								}
+							}
+						}
+					}
+					work = next
+				}
+			}
+		}
+		key := w.FnKey(entry) + ": default context"
 		// a call returning parser.Context, under the true edge of a nil test
 		var ctor *ssa.Function
 		var site *ssa.Call
